@@ -225,7 +225,19 @@ func (s *LogStore) triggerVerify(r VerificationReport) {
 
 // DeleteRange deletes a range of log entries. The range is inclusive.
 func (s *LogStore) DeleteRange(min uint64, max uint64) error {
-	return s.s.DeleteRange(min, max)
+	if err := s.s.DeleteRange(min, max); err != nil {
+		return err
+	}
+	// If the deleted range reaches into the range covered by the running
+	// checksum (a tail truncation before conflicting entries are re-appended, or
+	// a head truncation past the last checkpoint) the sum now covers entries
+	// that are no longer in the log. Start a fresh sum with the next append so
+	// the next checkpoint is not compared against, or computed from, them.
+	if start := atomic.LoadUint64(&s.sumStartIdx); start != 0 && max >= start {
+		atomic.StoreUint64(&s.checksum, 0)
+		atomic.StoreUint64(&s.sumStartIdx, 0)
+	}
+	return nil
 }
 
 // Close cleans up the background verification routine and calls Close on the
